@@ -310,6 +310,8 @@ class FnTranslator:
                 return "(ECall %s %s)" % (cs(q), clist([self.expr(e[1])] + [self.expr(a) for a in e[3:]]))
             if name in getattr(self, "transparent_methods", ()) and len(e) == 3:
                 return "(ECall \"into\" [%s])" % self.expr(e[1])
+            if name == "to_string" and self.interior and e[1][0] == "quote":
+                return "(ECon \"to_string\" [%s])" % self.expr(e[1])      # the text of a code template
             if name in self.builder_methods:
                 return "(ECall %s %s)" % (cs(name), clist([self.expr(e[1])] + [self.expr(a) for a in e[3:]]))
             if name in self.own_methods:
@@ -755,14 +757,17 @@ def translate_macro_logic():
     they splice); building the message variants of the source and emitting one default entry point are `extern::..`."""
     def setup(t):
         t.interior = True
-        t.externals = {"as_variants", "get_only_variant", "emit_default_entry_point"}
+        t.externals = {"as_variants", "get_only_variant", "emit_default_entry_point",
+                       "emit_result_type", "emit_ctx_params", "emit_ctx_values", "emit_ep_name", "as_accessor_wrapper_name"}
         t.own_methods = {"get_entry_point": "get_entry_point"}
-    FOREIGN.update({"MsgVariants::new": "call:extern::MsgVariants::new"})
+    FOREIGN.update({"MsgVariants::new": "call:extern::MsgVariants::new", "crate_module": "call:extern::crate_module"})
     out = []
     kv = fetch_ast(os.path.join(common.REPO, "sylvia-derive", "src", "entry_points.rs"))
-    out += translate_methods("entry_points.rs", {"EntryPoints": ["emit"]}, setup=setup, kv=kv,
+    out += translate_methods("entry_points.rs", {"EntryPoints": ["emit", "emit_default_entry_point"]}, setup=setup, kv=kv,
                              extra_known={"get_entry_point", "extern::MsgVariants::new", "extern::as_variants", "extern::get_only_variant",
-                                          "extern::emit_default_entry_point", "is_some", "is_none", "push"})
+                                          "extern::emit_default_entry_point", "is_some", "is_none", "push", "is_empty", "extern::crate_module",
+                                          "extern::emit_result_type", "extern::emit_ctx_params", "extern::emit_ctx_values",
+                                          "extern::emit_ep_name", "extern::as_accessor_wrapper_name"})
     kv2 = fetch_ast(os.path.join(common.REPO, "sylvia-derive", "src", "parser", "attributes", "override_entry_point.rs"))
     found = None
     for k, v in kv2:
